@@ -101,6 +101,7 @@ def showErr : ErrKind → String
   | .nonConsecutive => "nonConsecutive" | .indexNotFound => "indexNotFound"
   | .gap => "gap" | .eof => "eof" | .invalid => "invalid" | .locked => "locked"
   | .notFound => "notFound" | .exists => "exists" | .io => "io" | .sendFailed => "sendFailed"
+  | .invalidInput => "invalidInput"
 
 def showOkFail (b : Bool) : String := if b then "ok" else "fail"
 
